@@ -5,6 +5,7 @@ import (
 	"go/ast"
 	"go/token"
 	"go/types"
+	"os"
 	"sort"
 	"strings"
 
@@ -44,7 +45,12 @@ func (c *Ctx) evalCallMode(st *State, call *ast.CallExpr, spawn bool) []Val {
 		if n, ok := c.callOrd[call]; ok {
 			c.pointClauses(st, fmt.Sprintf("before call %s#%d", types.ExprString(call.Fun), n), call.Pos())
 			rs := c.evalCallInner(st, call, spawn)
-			c.pointClauses(st, fmt.Sprintf("after call %s#%d", types.ExprString(call.Fun), n), call.End())
+			// the call's results are visible to `after call` clauses as $r0, $r1, ... (they are not assigned yet)
+			extra := map[string]Val{}
+			for i, r := range rs {
+				extra[fmt.Sprintf("$r%d", i)] = r
+			}
+			c.pointClausesX(st, fmt.Sprintf("after call %s#%d", types.ExprString(call.Fun), n), call.End(), extra)
 			return rs
 		}
 	}
@@ -217,6 +223,7 @@ func (c *Ctx) dispatch(st *State, call *ast.CallExpr, fn *types.Func, recv *Val,
 	e := c.eng
 	sig := fn.Type().(*types.Signature)
 	isIfaceMethod := sig.Recv() != nil && types.IsInterface(sig.Recv().Type())
+	c.trackLock(st, call, fn)
 
 	if isIfaceMethod && recv != nil && !spawn && c.hasLocalDevirt(call, fn) {
 		// a package-local declaration of the dynamic type takes precedence over the interface-level contract
@@ -491,7 +498,7 @@ func (c *Ctx) inlineCall(st *State, call *ast.CallExpr, fi *FuncInfo, recv *Val,
 // and everything a path assumed or computed is kept under that path's condition.
 func (c *Ctx) joinPaths(entry *State, base int, rs []*State, vals [][]Val) (*State, []Val, bool) {
 	for _, r := range rs {
-		if r.epoch != entry.epoch || len(r.pc) < base {
+		if r.epoch != entry.epoch || len(r.pc) < base || !sameLocks(r, rs[0]) {
 			return nil, nil, false
 		}
 		for k2 := range r.heap {
@@ -503,6 +510,7 @@ func (c *Ctx) joinPaths(entry *State, base int, rs []*State, vals [][]Val) (*Sta
 	n := len(rs)
 	conds := make([]string, n)
 	m := entry.clone()
+	m.locks = rs[0].clone().locks
 	for i, r := range rs {
 		conds[i] = c.named(m, "jc", Val{T: and(r.pc[base:]...), S: "Bool"}).T
 	}
@@ -872,7 +880,11 @@ func (c *Ctx) modularCall(st *State, call *ast.CallExpr, fn *types.Func, ct *Fun
 			c.abort("contract of %s: requires %d: %v", fn.FullName(), i+1, err)
 			return c.havocResults(st, call, "res")
 		}
+		nbp := len(c.obls)
 		c.addObl(st, "pre", fmt.Sprintf("pre@%s%s.%d", short, ord, i+1), t, fmt.Sprintf("precondition `%s` of %s at %s", r.Src, short, c.pos(call)))
+		if len(r.Props) > 0 && len(c.obls) > nbp {
+			c.obls[len(c.obls)-1].Props = r.Props
+		}
 		st.assume(t)
 	}
 	if spawn {
@@ -955,12 +967,21 @@ func (c *Ctx) applyModifies(st *State, env *SpecEnv, item string, fn *types.Func
 	if err != nil {
 		return err
 	}
+	if os.Getenv("GOVC_DEBUG_MOD") != "" {
+		fmt.Fprintf(os.Stderr, "applyModifies item=%q cond=%q keys=%v loc=%q\n", item, cond, keys, loc)
+	}
 	if keys == nil {
 		c.heapHavocAll(st)
 		return nil
 	}
 	for _, k := range keys {
 		as, ok := heapSorts[k]
+		if !ok {
+			if so := c.sortOfKey(k); so != "" {
+				as, ok = so, true
+				heapSorts[k] = so
+			}
+		}
 		if loc == "" || !ok {
 			if cond != "" && ok {
 				cur := c.heapRead(st, k, as)
@@ -1256,7 +1277,11 @@ func (c *Ctx) modularCallSig(st *State, call *ast.CallExpr, ct *FuncContract, si
 			c.abort("contract of %s: requires %d: %v", ct.Key, i+1, err)
 			return c.havocResults(st, call, "res")
 		}
+		nbp := len(c.obls)
 		c.addObl(st, "pre", fmt.Sprintf("pre@%s%s.%d", short, ord, i+1), t, fmt.Sprintf("precondition `%s` of %s at %s", r.Src, short, c.pos(call)))
+		if len(r.Props) > 0 && len(c.obls) > nbp {
+			c.obls[len(c.obls)-1].Props = r.Props
+		}
 		st.assume(t)
 	}
 	if !ct.HasMod {
@@ -1368,4 +1393,63 @@ func (c *Ctx) sortOfKey(key string) Sort {
 		return arraySort("Int", c.sortOf(cur))
 	}
 	return ""
+}
+
+// trackLock keeps, per path, the mutexes this unit has locked and not yet unlocked (the verifier is sequential,
+// so locks have no other meaning here). A lock still held when the unit returns is an obligation failure:
+// every later user of that mutex would block for ever.
+func (c *Ctx) trackLock(st *State, call *ast.CallExpr, fn *types.Func) {
+	if fn.Pkg() == nil || fn.Pkg().Path() != "sync" {
+		return
+	}
+	sel, ok := unparen(call.Fun).(*ast.SelectorExpr)
+	if !ok {
+		return
+	}
+	rt := ""
+	if r := fn.Type().(*types.Signature).Recv(); r != nil {
+		rt = types.TypeString(r.Type(), nil)
+	}
+	if rt != "*sync.Mutex" && rt != "*sync.RWMutex" && rt != "sync.Locker" {
+		return
+	}
+	key := c.prefix + types.ExprString(sel.X)
+	switch fn.Name() {
+	case "Lock":
+	case "RLock":
+		key += " (read)"
+	case "Unlock":
+		c.unlock(st, key)
+		return
+	case "RUnlock":
+		c.unlock(st, key+" (read)")
+		return
+	default:
+		return
+	}
+	if st.locks == nil {
+		st.locks = map[string]int{}
+	}
+	st.locks[key]++
+}
+
+func (c *Ctx) unlock(st *State, key string) {
+	if st.locks[key] > 0 {
+		st.locks[key]--
+		if st.locks[key] == 0 {
+			delete(st.locks, key)
+		}
+	}
+}
+
+func sameLocks(a, b *State) bool {
+	if len(a.locks) != len(b.locks) {
+		return false
+	}
+	for k, v := range a.locks {
+		if b.locks[k] != v {
+			return false
+		}
+	}
+	return true
 }
